@@ -499,19 +499,31 @@ func (e *Engine) runPath(sol *Solver, entry *ssa.Function, prefix []int, wantSam
 }
 
 func (p *Path) runOthersToQuiescence() {
+	idle := 0 // consecutive rounds in which only sleeping pollers moved
 	for {
-		progressed := false
+		progressed, real := false, false
 		for i := 1; i < len(p.gs); i++ {
 			g := p.gs[i]
 			if g.done {
 				continue
 			}
+			if g.napping {
+				g.napping, g.napDone = false, true
+			}
 			_, prog := p.runG(g, 0)
 			if prog {
 				progressed = true
+				if !g.napping {
+					real = true
+				}
 			}
 		}
 		if !progressed {
+			return
+		}
+		if real {
+			idle = 0
+		} else if idle++; idle >= 3 {
 			return
 		}
 	}
@@ -523,8 +535,12 @@ func (p *Path) runOneOther() bool {
 		if g.done {
 			continue
 		}
+		wasNapping := g.napping
+		if g.napping {
+			g.napping, g.napDone = false, true
+		}
 		_, prog := p.runG(g, 0)
-		if prog {
+		if prog && !(wasNapping && g.napping) {
 			return true
 		}
 	}
